@@ -165,3 +165,24 @@ Proof.
   replace (cut (keep R e) (x - m) + m - x) with (cut (keep R e) (x - m) - (x - m)) by ring.
   apply cut_within_range; assumption.
 Qed.
+
+(* the two facts together: a zero stored through the exact-value codec whose range covers the placeholder decodes below the zero
+   threshold (so it comes back as an exact zero), and a non-zero magnitude stored through it never does *)
+Lemma zero_through_exact_codec : forall a ta b tb minlog e t rad median,
+  0 < e -> 0 <= t -> b + 1 < a -> tb <= ta -> e <= rad ->
+  Rabs (zero_placeholder a ta minlog e t - median) <= rad ->
+  exact_codec rad e median (zero_placeholder a ta minlog e t) < zero_threshold b tb minlog e t.
+Proof.
+  intros a ta b tb minlog e t rad median He Ht Hab Htt Her Hcov.
+  apply (zero_below_threshold a ta b tb minlog e t); try assumption.
+  left. apply exact_codec_within; assumption.
+Qed.
+
+Lemma nonzero_through_exact_codec : forall b tb minlog e t rad median y,
+  0 < e -> 0 <= t -> 1 < b -> 0 <= tb -> e <= rad -> minlog <= y -> Rabs (y - median) <= rad ->
+  ~ exact_codec rad e median y < zero_threshold b tb minlog e t.
+Proof.
+  intros b tb minlog e t rad median y He Ht Hb Htb Her Hy Hcov.
+  apply (nonzero_above_threshold b tb minlog e t y); try assumption.
+  left. apply exact_codec_within; assumption.
+Qed.
